@@ -26,7 +26,8 @@ GEN_MODULES = []
 REQUIRED = ['codec_roundtrip', 'codec_reserialize_stable', 'to_from_dict_roundtrip', 'codec_rejects', 'codec_accepts', 'codec_save_ok_iff',
             'representable_serializable', 'codec_save_or_faithful', 'codec_faithful_iff_serializable', 'codec_set_reloads',
             'codec_reserved_key_reloads', 'codec_reserved_callable_reloads',
-            'blt_roundtrip', 'blt_written_string_uncut', 'blt_comment_start_examples', 'blt_parse_total', 'blt_loaded_indices_valid', 'blt_former_foreign_errors',
+            'blt_roundtrip', 'blt_written_string_uncut', 'blt_comment_start_examples', 'blt_parse_total',
+            'blt_parse_total_oneplus_partial', 'blt_parse_total_oneplus_witness', 'blt_loaded_indices_valid', 'blt_former_foreign_errors',
             'Stv.stv_nicks_distinct', 'Stv.stv_nicks_nonempty', 'Stv.stv_roundtrip', 'Stv.stv_dump_refuses', 'Stv.stv_header_roundtrip',
             'Stv.stv_parse_total', 'Stv.stv_former_foreign_errors', 'Stv.stv_end_and_empty_ballot_reload']
 REQUIRED_COUNTERS = ['codec_frac', 'codec_dec', 'codec_tuple', 'codec_fset', 'codec_sdict', 'codec_gdict', 'codec_obj', 'codec_callable',
@@ -34,7 +35,8 @@ REQUIRED_COUNTERS = ['codec_frac', 'codec_dec', 'codec_tuple', 'codec_fset', 'co
                      'codec_same_name_two_registries', 'codec_wide',
                      'class_rt', 'class_bad', 'class_signatures', 'class_sensitive', 'class_same_name_two_registries',
                      'class_equal_values_different_types', 'sens_LargestRemainder_accept_equal',
-                     'sens_LargestRemainder_on_overaward', 'cls_depth_4', 'feat_fraction', 'feat_decimal', 'feat_callable_by_name', 'feat_dict_keyed',
+                     'sens_LargestRemainder_on_overaward', 'sens_Coalition_lead', 'sens_ByConstituency_subsetter', 'sens_ByParty_subsetter',
+                     'sens_UnusedVotesDistributor_depth', 'sens_TransferableVoteDistributor_mandatory_quota', 'cls_depth_4', 'feat_fraction', 'feat_decimal', 'feat_callable_by_name', 'feat_dict_keyed',
                      'blt_rt', 'blt_withdrawn', 'blt_withdrawn_first', 'blt_one_candidate', 'blt_title', 'blt_weight_int',
                      'blt_weight_dec', 'blt_weight_frac', 'blt_weight_proper_fraction', 'blt_person', 'blt_strname', 'blt_empty_ballot',
                      'blt_name_quote_then_hash', 'blt_name_hash_then_quote', 'blt_title_quote_then_hash', 'blt_title_hash_then_quote',
@@ -44,7 +46,8 @@ REQUIRED_COUNTERS = ['codec_frac', 'codec_dec', 'codec_tuple', 'codec_fset', 'co
                      'stv_rt', 'stv_blt_mode', 'stv_own_mode', 'stv_duplicate_initials', 'stv_many_candidates', 'stv_weight_below_one',
                      'stv_title_none', 'stv_empty_ballot_w1', 'stv_nick_end', 'stv_name_no_initials', 'stv_decimal_exponent',
                      'stv_writer_must_refuse', 'stv_withdrawn', 'stv_weight_frac', 'stv_weight_dec',
-                     'stv_text', 'mut_header_junk', 'stv_quota_registry', 'stv_header_directed']
+                     'stv_text', 'mut_header_junk', 'stv_quota_registry', 'stv_header_directed',
+                     'structure_directed', 'class_directed', 'class_custom_inputs', 'codec_directed', 'text_variant_directed', 'blt_oneplus', 'blt_oneplus_directed', 'mut_crlf', 'mut_bom', 'mut_no_final_newline', 'blt_zero_ballots', 'blt_all_withdrawn', 'blt_27plus_candidates', 'blt_one_candidate', 'blt_cand_int', 'blt_cand_person', 'blt_cand_person_full', 'blt_cand_str', 'blt_names_differ_in_case_only', 'blt_names_differ_in_whitespace_only', 'blt_name_non_ascii', 'blt_title_non_ascii', 'blt_weight_zero_int', 'blt_weight_zero_dec', 'blt_weight_zero_frac', 'blt_weight_negative', 'blt_weight_huge_denominator', 'blt_weight_decimal_exponent', 'blt_weight_2_53_and_above', 'blt_weight_10_400', 'stv_zero_ballots', 'stv_all_withdrawn', 'stv_27plus_candidates', 'stv_one_candidate', 'stv_cand_int', 'stv_cand_person', 'stv_cand_person_full', 'stv_cand_str', 'stv_names_differ_in_case_only', 'stv_names_differ_in_whitespace_only', 'stv_name_non_ascii', 'stv_title_non_ascii', 'stv_weight_zero_int', 'stv_weight_zero_dec', 'stv_weight_zero_frac', 'stv_weight_negative', 'stv_weight_huge_denominator', 'stv_weight_decimal_exponent', 'stv_weight_2_53_and_above', 'stv_weight_10_400', 'blt_name_empty']
 RULE = ('codec: random value trees of depth <= 4 over atoms (None/bool/int up to 10^30/float/str incl. unicode and identifier-like), '
         'Fraction, Decimal, list, tuple, frozenset, str-keyed and general dicts, objects (Person, PoliticalParty, NoneOfTheAbove, '
         'AbsoluteThreshold) and callables by name; plus directed streams: an unrepresentable leaf (closure, lambda, same-named local def, '
@@ -78,7 +81,9 @@ NOT_VERIFIED = ['lexing of BLT/STV text (split, str(weight), Decimal(text), str.
                 'their isdecimal()/int() classification, names and title with the flag whether _header_text lets them through; math.log in '
                 'the ordinal nickname length is modelled as the least k >= 1 with 26^k >= n; the objects _create_evaluator builds are '
                 'summarised as (title, seats, quota, mandatory, tie-break) and compared with the loaded system through that summary only']
-UNPROVED = ['stv_roundtrip holds for systems of the shape VotingSystem?(FixedSeatCount?(TieBreaking?(TransferableVoteSelector))) only; other '
+UNPROVED = ['blt_parse_total for the reader option oneplus_weights=True (false of the current code: ValueError for a weight below 1; '
+            'blt_parse_total_oneplus_partial and the witness are proved; open finding C19-blt-oneplus-valueerror)',
+            'stv_roundtrip holds for systems of the shape VotingSystem?(FixedSeatCount?(TieBreaking?(TransferableVoteSelector))) only; other '
             'evaluator trees (which _dump_system silently writes partially or refuses) are covered by the correspondence of dumpSys, not by a theorem',
             'stv_parse_total is stated up to the constructs outside the STV token model (BLT content inside STV, the ordered format order=): '
             'for those the exception type is checked by the oracle only']
@@ -273,20 +278,22 @@ def _impl_class(case):
             d3 = _g(lambda: P.to_dict(y2))
             out['json_d_eq'] = (not _is_err(d3)) and json.dumps(d3) == txt
     if det and not case.get('bad'):
-        o0 = _g(lambda: KL.outcomes(obj, seed, n_in), 30)
+        import props.c19_sensitivity as SE
+        run = (lambda o: SE.custom_outcomes(KL, case['custom'], o)) if case.get('custom') else (lambda o: KL.outcomes(o, seed, n_in))
+        o0 = _g(lambda: run(obj), 30)
         out['n_ok_outcomes'] = 0 if _is_err(o0) else sum(1 for o in o0 if not _is_err(o))
 
         def differs(other):
             """outcomes of the reloaded copy differ from the original's, reproducibly (an evaluation that depends on the
             iteration order of id-hashed objects is not reproducible even on the original: no C19 matter)"""
-            o1 = _g(lambda: KL.outcomes(other, seed, n_in), 30)
+            o1 = _g(lambda: run(other), 30)
             if o1 == o0:
                 return None
             for _ in range(2):
-                if _g(lambda: KL.outcomes(obj, seed, n_in), 30) != o0:
+                if _g(lambda: run(obj), 30) != o0:
                     out['unstable_original'] = True
                     return None
-                if _g(lambda: KL.outcomes(other, seed, n_in), 30) == o0:
+                if _g(lambda: run(other), 30) == o0:
                     out['unstable_original'] = True
                     return None
             return _first_diff(o0, o1)
@@ -402,9 +409,13 @@ def _gen_sensitive():
     import props.c19_sensitivity as SE
     for w in SE.load()['found']:
         short = w['cls'].rsplit('.', 1)[1]
-        ok = SE.distinguishes(KL, w['spec'], w['param'], w['seed'])
+        ok = SE.witness_distinguishes(KL, w)
         tags = ['class_rt', 'class_sensitive', f"sens_{short}_{w['param']}"] if ok else ['class_rt', 'sens_lost']
-        yield {'op': 'class_rt', 'spec': w['spec'], 'seed': w['seed'], 'n_inputs': SE.N_INPUTS, '_tags': tags}
+        c = {'op': 'class_rt', 'spec': w['spec'], 'seed': w['seed'], 'n_inputs': SE.N_INPUTS, '_tags': tags}
+        if 'inputs' in w:
+            c['custom'] = w['inputs']
+            c['_tags'].append('class_custom_inputs')
+        yield c
 
 
 def _class_directed_specs():
@@ -962,6 +973,8 @@ def _haz_stv(case):
     it must not alter them"""
     doc, sysd = case['doc'], case.get('sys')
     h = set()
+    if any(IO.weight_py(w) < 0 for _, w in doc['ballots']):
+        h.add('negative_weight')
     if sysd is not None:
         for n, _, _ in doc['cands']:
             if not n.strip():
@@ -1306,7 +1319,7 @@ def describe(case):
         return f"votelib.io.stv.loads(votelib.io.stv.dumps({v!r}, <system {case.get('sys')}>, {c!r}, ...))"
     if op == 'blt_clean':
         return f"votelib.io.blt._clean_line({case['line']!r})"
-    return f"votelib.io.{op[:3]}.loads({case['text']!r})"
+    return f"votelib.io.{op[:3]}.loads({case['text']!r}{', oneplus_weights=True' if case.get('oneplus') else ''})"
 
 
 def shrink_candidates(case):
